@@ -157,9 +157,7 @@ def rule_mark(R):
                      "session_present may only be set by the handshake; `%s` is called from %s" % (mk.fn_name, b.name), where=c.span)
                 continue
             # dominated by reason Ok edge
-            rs = hcode.result_switches(lambda x: is_call(peel(x), "ReasonCode::as_result") and any(
-                y[0] == "downcast" and y[2] == "ConnAck" for y in walk(x)))
-            ok_edges = [(si["bb"], si["edges"]["Ok"]) for si in rs if si["edges"].get("Ok") is not None]
+            ok_edges = roles.reason_accepted_edges(f, hcode, "ConnAck")
             ok1 = bool(ok_edges) and hcode.must_pass([0], [c.bb], via_edges=ok_edges)[0]
             R.ob("mark/after-reason", ok1,
                  "session_present is set only after the CONNACK reason code was checked and found successful", where=c.span)
@@ -214,8 +212,7 @@ def clause_reset_unconditional(R, key):
     rst = outq.session_reset(f)
     clr = outq.role_fn(f, "clear")
     cbs = [c.bb for c in outq.calls_to(f, rst, clr)]
-    gbs = [bb for (bb, j, dst, rv, s) in rst.stores() if bb in rst.reachable
-           and any(isinstance(e, dict) and e.get("name") == "generation" for e in dst["proj"])]
+    gbs = [bb for (b_, bb, j, dst, rv, s, final) in f.field_stores(SDATA, "generation") if b_.name == rst.name]
     ok_c = bool(cbs) and rst.must_pass([0], rst.returns, via_blocks=cbs)[0]
     ok_g = bool(gbs) and rst.must_pass([0], rst.returns, via_blocks=gbs)[0]
     R.ob(key, ok_c and ok_g,
@@ -252,11 +249,8 @@ def clause_fresh_reset(R, prefix):
          "once the CONNACK reported no session, every path to the end of the handshake performs the reset",
          where=hb.span)
     # nothing can fail between accepting the reason code and acting on session_present
-    rs = hcode.result_switches(lambda x: is_call(peel(x), "ReasonCode::as_result") and any(
-        y[0] == "downcast" and y[2] == "ConnAck" for y in walk(x)))
     ok3 = False
-    for si in rs:
-        okt = si["edges"].get("Ok")
+    for (_rb, okt) in roles.reason_accepted_edges(f, hcode, "ConnAck"):
         if okt is not None and first is not None:
             ok3, off = hcode.must_pass([okt], hcode.returns, via_blocks=[first["bb"]])
             # ... and the reset itself (not only the test) comes before anything that can fail
@@ -279,8 +273,7 @@ def rule_reset(R):
     # what the reset does
     clr = outq.role_fn(f, "clear")
     R.ob("reset/clears-outbound", bool(outq.calls_to(f, rst, clr)), "the reset discards all outbound in-flight state", where=rst.span)
-    gen = [(bb, rst.rvalue_term(rv)) for (bb, j, dst, rv, s) in rst.stores()
-           if any(isinstance(e, dict) and e.get("name") == "generation" for e in dst["proj"])]
+    gen = [(bb, b_.rvalue_term(rv)) for (b_, bb, j, dst, rv, s, final) in f.field_stores(SDATA, "generation") if b_.name == rst.name]
     def nonzero_step(v):
         if is_call(v, "wrapping_add", "checked_add", "saturating_add") and len(v[3]) == 2:
             return v[3][1][0] == "const" and v[3][1][2] not in (0, None)
